@@ -18,6 +18,7 @@ import NmVerif.Lemmas.LinalgKron
   `(lhs index, rhs index)` it sums, in fold order; `valueAt` evaluates such a list on concrete data.
 -/
 namespace NmVerif.Props.C16
+open NmVerif.MB
 open NmVerif NmVerif.Linalg
 
 /-! ### matmul -/
